@@ -25,7 +25,8 @@ RULE = ("scripts on two real chmux endpoints over script-owned wires: (exact mod
 TRUSTED_BASE = [
     "M_link (lean/RemocModel/Link/Model.lean): hand-written LTS of sender.rs/credit.rs/receiver.rs/mux.rs for one port direction; "
     "the five queues between sender and receiver are abstracted to one FIFO; override_graceful_close not modelled",
-    "the receiving caller follows the documented protocol (recv_chunk until None/Cancelled after Received::Chunks)",
+    "the receiving caller follows the documented protocol (recv_chunk until None/Cancelled after Received::Chunks) in the theorems; "
+    "a caller that receives again instead (declining the rest of the message) is covered by the correspondence run only (`recvskip`)",
     "harness (harness/src/world.rs, transport.rs) and driver (lean/Driver/Link.lean)",
 ]
 ASSUMPTIONS = ["Tokio mpsc queues are FIFO; single-threaded paused runtime: sleep(1ns) returns at quiescence"]
